@@ -390,3 +390,26 @@ def spd_block(r, b, nb, incomplete=True, kron=False):
     for i in range(n):
         rows[i][i] = sum(abs(v) for c, v in rows[i].items() if c != i) + F(r.choice([1, 2, 3]), r.choice([1, 2]))
     return [sorted(rw.items()) for rw in rows]
+
+def convdiff(r, n, peclet=None, two_d=None):
+    """non-symmetric convection-diffusion stencil (upwind-free central differences), 1D or 2D grid of n points;
+    needs many restarts with short-recurrence restarted Krylov methods.  Sorted rows, exact dyadic entries."""
+    if peclet is None: peclet = F(r.choice([1, 2, 3, 5, 7]), 8)
+    if two_d is None: two_d = r.random() < 0.5
+    rows = []
+    if not two_d:
+        for i in range(n):
+            rw = {i: F(2) + F(r.choice([0, 0, 1]), 16)}
+            if i > 0: rw[i - 1] = -1 - peclet
+            if i + 1 < n: rw[i + 1] = -1 + peclet
+            rows.append(sorted(rw.items()))
+    else:
+        nx = max(2, int(n ** 0.5))
+        for i in range(n):
+            rw = {i: F(4) + F(r.choice([0, 0, 1]), 16)}
+            if i % nx != 0: rw[i - 1] = -1 - peclet
+            if (i + 1) % nx != 0 and i + 1 < n: rw[i + 1] = -1 + peclet
+            if i - nx >= 0: rw[i - nx] = -1 - peclet / 2
+            if i + nx < n: rw[i + nx] = -1 + peclet / 2
+            rows.append(sorted(rw.items()))
+    return rows
